@@ -268,6 +268,13 @@ func (c dnsrespComp) emitResp(emit func(string), letter, domain, rr, fields stri
 	emit(op)
 }
 
+func btoi(b bool) int {
+	if b {
+		return 1
+	}
+	return 0
+}
+
 var respRRs = []string{"null", "priv", "txt", "srv", "mx", "cname", "aaaa", "a"}
 var respCodecs = []string{"T", "S", "U", "W", "X", "V", "R"}
 
@@ -317,6 +324,18 @@ func (c dnsrespComp) Gen(r *Rand, tier string, emit func(string)) {
 			}
 			c.emitResp(emit, "R", "example.org", rr, fmt.Sprintf("c _ 1 1 2 %s", hexs(stressBytes(r, n, 4))))
 		}
+	}
+	// (2b) record-count boundaries with the Raw codec (stream = 6 + n bytes exactly): A/AAAA payloads whose
+	// last record is full (so they pack), order prefixes beyond one byte, TXT with two records
+	for _, recs := range []int{1, 2, 3, 85, 254, 255, 256} {
+		c.emitResp(emit, "R", "example.org", "a", fmt.Sprintf("c _ 1 1 2 %s", hexs(stressBytes(r, recs*3-6+3*btoi(recs < 2), 0))))
+	}
+	for _, recs := range []int{1, 2, 3, 255, 256, 257, 300} {
+		c.emitResp(emit, "R", "example.org", "aaaa", fmt.Sprintf("c _ 1 1 2 %s", hexs(stressBytes(r, recs*14-6, 0))))
+	}
+	for _, n := range []int{250*253 - 6, 250*253 - 5, 64000} {
+		c.emitResp(emit, "R", "example.org", "txt", fmt.Sprintf("c _ 1 1 2 %s", hexs(stressBytes(r, n, 1))))
+		c.emitResp(emit, "T", "example.org", "txt", fmt.Sprintf("c _ 1 1 2 %s", hexs(stressBytes(r, n/2, 0))))
 	}
 	// (3) every response kind x every error code x record type x codec
 	for _, rr := range respRRs {
